@@ -199,4 +199,6 @@ def make_credential(kind="p256", idx=0, alg=None, cred_id=None, aaguid=None, rng
 CRED_KINDS = [("p256", ES256), ("p384", ES256), ("p521", ES512), ("p256", ES512), ("ed25519", EDDSA),
               ("rsa", RS256), ("rsa", RS384), ("rsa", RS512), ("rsa", PS256), ("rsa", PS384), ("rsa", PS512), ("rsa", RS1),
               # moduli of other sizes, one not a whole number of bytes
-              ("rsa2047", RS256), ("rsa2047", PS256), ("rsa1024", RS512), ("rsa3072", PS384)]
+              ("rsa2047", RS256), ("rsa2047", PS256), ("rsa1024", RS512), ("rsa3072", PS384),
+              # a 4096-bit modulus; public exponents other than 65537, one of them wider than 32 bits
+              ("rsa4096", RS256), ("rsa-33bit-e", RS256), ("rsa-64bit-e", PS256), ("rsa-same-n-small-e", RS384)]
